@@ -70,7 +70,9 @@ func free(c *hx.Ctx, prop string) {
 			cs := s.calls[a.i]
 			switch a.k {
 			case 0, 1:
-				s.Eng.NotifyAcks([]int64{id, 7777})
+				if pn, v := recoverCall(func() { s.Eng.NotifyAcks([]int64{id, 7777, id}) }); pn {
+					s.notePanic(fmt.Sprintf("NotifyAcks: %v", v))
+				}
 			case 2, 3:
 				nw.Add(1)
 				d := &delivery{idx: len(s.deliv), msgID: id, val: a.v}
@@ -100,7 +102,11 @@ func free(c *hx.Ctx, prop string) {
 			case 6:
 				if rng.Chance(1, 2) {
 					cs.ucancel = true
-					cs.cancel()
+					if rng.Chance(1, 3) {
+						cs.expire()
+					} else {
+						cs.cancel()
+					}
 				}
 			case 7:
 				var b bin.Buffer
